@@ -233,6 +233,12 @@ class ForwardHarness:
             self.fail(ctx, oid + "/no-exception", f"fluent method raised {e.value!r} {getattr(e.value, 'fields', '')} where ops.{mname} accepts the call")
             return
         except Unsupported as e:
+            if str(e).startswith("iterate SV<") and any(isinstance(a, SV) and repr(a) in str(e) for a in list(args) + list(kwargs.values())):
+                # same contract: the piped operator takes its iterable AS IT IS and asks it for an iterator per subscription; a method that
+                # iterates it (iter(second), list(second), a loop) while the pipeline is built hands on something else - a one-shot iterator
+                self.fail(ctx, oid + "/hands-its-arguments-on-untouched", f"the fluent method itself iterates one of its arguments ({str(e)[8:]}) while the "
+                          f"pipeline is being built; ops.{mname}(...) only stores it (and iterates it anew for every subscription)")
+                return
             if str(e).startswith("call of SV<") and any(isinstance(a, SV) and repr(a) in str(e) for a in list(args) + list(kwargs.values())):
                 # the forwarding contract: arguments are handed on to ops.<name>(...) as they are - the piped form never calls a mapper /
                 # factory when the pipeline is BUILT (only per subscription / per element), so a method that does is a different operator
